@@ -4,6 +4,9 @@ open Py Lean
 namespace Driver.D_iban
 def handle (fn : String) (args : List Json) : String :=
   match fn with
+  | "_get_cc_module" => match args with
+    | [a0] => (do let x0 ← Wire.decStr a0; pure (Wire.respondWith (Wire.encOpt Wire.encModule) (Gen.iban._get_cc_module x0)) : Option String).getD "badargs"
+    | _ => "badargs"
   | "calc_check_digits" => match args with
     | [a0] => (do let x0 ← Wire.decStr a0; pure (Wire.respondWith Wire.encStr (Gen.iban.calc_check_digits x0)) : Option String).getD "badargs"
     | _ => "badargs"
@@ -21,6 +24,9 @@ def handle (fn : String) (args : List Json) : String :=
     | _ => "badargs"
   | "validate__check_country_False" => match args with
     | [a0] => (do let x0 ← Wire.decStr a0; pure (Wire.respondWith Wire.encStr (Gen.iban.validate__check_country_False x0)) : Option String).getD "badargs"
+    | _ => "badargs"
+  | "_get_cc_module__warm" => match args with
+    | [a0, a1] => (do let x0 ← (Wire.decDict Wire.decStr (Wire.decOpt Wire.decModule)) a0; let x1 ← Wire.decStr a1; pure (Wire.respondWith (Wire.encT2 (Wire.encOpt Wire.encModule) (Wire.encDict Wire.encStr (Wire.encOpt Wire.encModule))) (Gen.iban._get_cc_module__warm x0 x1)) : Option String).getD "badargs"
     | _ => "badargs"
   | _ => "nofunc"
 end Driver.D_iban
